@@ -1027,4 +1027,28 @@ Qed.
 
 End Zero.
 
+(* ---- first item of the iterators returned by successor / predecessor / select_iter *)
+
+Lemma q_it_first it j : it_repr it j m ->
+  it_first md sv (Ok it) = Ok (hd_error (skipN (vs_ranked Vs) j)).
+Proof.
+  intros Hit. unfold it_first. cbn [bind]. rewrite hd_skipN_ranked.
+  destruct (N.ltb_spec j m) as [Hj|Hj].
+  - destruct (q_it_next it j m Hit Hj) as [it' [Hnx _]]. rewrite Hnx. reflexivity.
+  - rewrite (q_it_next_none it j m Hit Hj). reflexivity.
+Qed.
+
+Lemma q_successor_first v : it_first md sv (sv_successor sp md sv v) = Ok (hd_error (vs_succ Vs v)).
+Proof.
+  destruct (q_successor_ok v) as [it [Hs Hit]]. rewrite Hs, (vs_succ_eq Vs v Hsorted). apply q_it_first. exact Hit.
+Qed.
+
+Lemma q_predecessor_first v : it_first md sv (sv_predecessor sp md sv v) = Ok (hd_error (vs_pred Vs v)).
+Proof.
+  destruct (q_predecessor_ok v) as [it [Hs Hit]]. rewrite Hs, (vs_pred_eq Vs v Hsorted).
+  rewrite (q_it_first it _ Hit). unfold pred_index. cbn zeta.
+  destruct (N.eqb_spec (vs_rank Vs (v + 1)) 0) as [Hz|Hz]; [|reflexivity].
+  rewrite hd_skipN_ranked. replace (m <? m) with false by lia. reflexivity.
+Qed.
+
 End Queries.
